@@ -204,6 +204,9 @@ func c05Round(c *Case) {
 	var shared []*xpath.Expr
 	for len(srcs) < nexpr {
 		s := c05Expr(g, env)
+		if xgen.CostEstimateText(s, len(d.Nodes)) > xgen.MaxCost {
+			continue
+		}
 		ce, err := safeCompile(s)
 		if err != nil {
 			continue
